@@ -545,3 +545,42 @@ func BuildMLUCFanIn(nrec, strBytes int) *ICCProfile {
 		Fields:  []Field{{Name: "mluc.recordCount", Off: 152, Width: 4, Kind: "count"}},
 		Summary: fmt.Sprintf("ICC %d bytes, mluc fan-in: %d records sharing one %d-byte string", len(w.b), nrec, strBytes)}
 }
+
+// BuildTagFanIn renders a syntactically valid profile with ntags distinct tag
+// signatures that all declare the same (whole) tag data area of areaBytes bytes
+// - ICC.1 allows tags to share data. A reader that copies per tag handles
+// ntags*areaBytes bytes for a 132+12*ntags+areaBytes byte input.
+func BuildTagFanIn(ntags, areaBytes int) *ICCProfile {
+	hdr := DrawICCHeader(tape.New(9, nil))
+	w := &builder{}
+	w.bytes(hdr)
+	w.u32be(uint32(ntags))
+	dataOff := 132 + 12*ntags
+	if areaBytes < 12 {
+		areaBytes = 12
+	}
+	for i := 0; i < ntags; i++ {
+		if i == 0 {
+			w.str("desc")
+		} else {
+			w.u8(byte('A' + i%26))
+			w.u8(byte('a' + (i/26)%26))
+			w.u8(byte('a' + (i/676)%26))
+			w.u8(byte('0' + (i/17576)%10))
+		}
+		w.u32be(uint32(dataOff))
+		w.u32be(uint32(areaBytes))
+	}
+	// the shared area starts as a v2 description so that Description() works
+	w.str("desc")
+	w.u32be(0)
+	w.u32be(3)
+	w.str("ok\x00")
+	for w.off() < dataOff+areaBytes {
+		w.u8(byte(w.off()))
+	}
+	PutBE(w.b, 0, 4, uint64(len(w.b)))
+	return &ICCProfile{Bytes: w.b, NTags: ntags, HasDesc: true, DescKind: "v2", Acceptable: []string{"ok"},
+		Fields:  []Field{{Name: "tagCount", Off: 128, Width: 4, Kind: "count"}},
+		Summary: fmt.Sprintf("ICC %d bytes, tag fan-in: %d tags sharing one %d-byte data area", len(w.b), ntags, areaBytes)}
+}
